@@ -70,8 +70,62 @@ func parseArgs(argv []string) (p parsed) {
 
 var yamlSeq int
 
-// parseYAML writes text to a config file and runs `socketace -c file <command>`.
+// fingerprint summarises what a parse produced (used to compare repeated parses of the same text).
+func (p parsed) fingerprint() string {
+	var sb strings.Builder
+	fmt.Fprintf(&sb, "err=%v panic=%q ran=%s", p.Err != nil, p.Panic, p.Ran)
+	if p.Server != nil {
+		fmt.Fprintf(&sb, " servers=%d channels=%d", len(p.Server.Servers), len(p.Server.Channels))
+		for _, s := range p.Server.Servers {
+			fmt.Fprintf(&sb, " %T:%v", s, s)
+		}
+		for _, c := range p.Server.Channels {
+			fmt.Fprintf(&sb, " %T:%v", c, c)
+		}
+	}
+	if p.Client != nil {
+		fmt.Fprintf(&sb, " upstreams=%d listeners=%d", len(p.Client.Upstream.Data), len(p.Client.ListenList))
+		for _, u := range p.Client.Upstream.Data {
+			fmt.Fprintf(&sb, " %T:%v", u, u)
+		}
+		for _, l := range p.Client.ListenList {
+			fmt.Fprintf(&sb, " %T:%v", l, l)
+		}
+	}
+	return sb.String()
+}
+
+// yamlDeviations counts parses of one text that differed from the other parses of the same text (known finding
+// "yaml-decode-nondeterministic": the YAML library's decoding of a text is not a function of the text).
+var yamlDeviations, yamlParses int
+
+// parseYAML parses the text three times and returns the result the majority agrees on. A configuration text has one
+// meaning; where repeated parses of the same bytes disagree, that is reported under its own signature instead of being
+// misread as a property of the scheme under test.
 func parseYAML(text, command string) parsed {
+	var ps [3]parsed
+	var fp [3]string
+	for i := range ps {
+		ps[i] = parseYAMLOnce(text, command)
+		fp[i] = ps[i].fingerprint()
+	}
+	yamlParses += 3
+	pick := 0
+	switch {
+	case fp[0] == fp[1] && fp[1] == fp[2]:
+		return ps[0]
+	case fp[0] == fp[1] || fp[0] == fp[2]:
+		pick = 0
+	case fp[1] == fp[2]:
+		pick = 1
+	}
+	yamlDeviations++
+	noteYAMLNondeterminism(text, fp[:])
+	return ps[pick]
+}
+
+// parseYAMLOnce writes text to a config file and runs `socketace -c file <command>`.
+func parseYAMLOnce(text, command string) parsed {
 	yamlSeq++
 	dir := os.Getenv("VERIF_RUNDIR")
 	if dir == "" {
